@@ -30,7 +30,7 @@ RULE = ("random hostile names that the reader accepts as one symbol (punctuation
         "independent. Non-trivial = hy.mangle changes the name (for pairs: one of the two); distinct by "
         "program text.")
 FLOOR = {"quick": 1500, "thorough": 1500}
-BUDGET = {"quick": 35, "thorough": 480}
+BUDGET = {"quick": 25, "thorough": 480}
 CASE_TIMEOUT = 20
 NEEDS_EVENTS = True
 ANCHORS = ["hy.compiler:HyASTCompiler.compile_symbol",
@@ -45,7 +45,14 @@ ASSUMPTIONS = ["hy.mangle is the reference (its own sanity is C32)",
                "CPython 3.12.1 passes AST identifiers unchanged to globals / getattr / **kw / code objects",
                "names must read as a single dot-free Symbol; names whose mangling is None/True/False/_/hy, a "
                "builtin, a harness name or starts with _hy_ are outside the workload; macro constructs "
-               "exclude core-macro names"]
+               "exclude core-macro names; ':s', 'a.s' and '.s' must read as keyword / dotted identifier / "
+               "method head (e.g. .__86 is a number)",
+               "the except variable is let-scoped by design (compiled to a reserved _hy_exc_ temporary): it is "
+               "observed through Hy (the handler body reads it), not from Python",
+               "globals starting with _hy_ are compiler temporaries (C12), not uses of the name",
+               "CPython's private-name mangling (__x -> _Class__x) applies inside a class body",
+               "a construct that refuses the name at compile time (e.g. / or * as a parameter) binds nothing: "
+               "skipped, gated at 2% of the cases"]
 MANIFEST = {
     "text": "For random hostile symbol names, one micro-program per (name, construct) is compiled and run by "
             "the tree's own compiler; the identifier actually bound or looked up is observed from Python "
